@@ -2,4 +2,33 @@
 
 package podeni
 
+import (
+	"context"
+
+	"k8s.io/apimachinery/pkg/runtime"
+	"k8s.io/client-go/tools/record"
+	"sigs.k8s.io/controller-runtime/pkg/client"
+
+	aliyunClient "github.com/AliyunContainerService/terway/pkg/aliyun/client"
+	register "github.com/AliyunContainerService/terway/pkg/controller"
+	"github.com/AliyunContainerService/terway/pkg/controller/status"
+)
+
 func VerifPodNumaHints(anno map[string]string) []int { return podNumaHints(anno) }
+
+// NewVerifReconcilePodENI builds the reconciler with injected dependencies (in production it is
+// only constructed inside the init() registration closure from a manager.Manager).
+func NewVerifReconcilePodENI(c client.Client, scheme *runtime.Scheme, aliyun register.Interface, rec record.EventRecorder, trunkMode, crdMode bool, cache *status.Cache[status.NodeStatus]) *ReconcilePodENI {
+	return &ReconcilePodENI{client: c, scheme: scheme, aliyun: aliyun, record: rec, trunkMode: trunkMode, crdMode: crdMode, nodeStatusCache: cache}
+}
+
+// one pass of each periodic collector
+func (m *ReconcilePodENI) VerifGCSecondaryENI(ctx context.Context) { m.gcSecondaryENI(ctx) }
+func (m *ReconcilePodENI) VerifGCMemberENI(ctx context.Context)    { m.gcMemberENI(ctx) }
+func (m *ReconcilePodENI) VerifGCENIs(ctx context.Context, enis []*aliyunClient.NetworkInterface) error {
+	return m.gcENIs(ctx, enis)
+}
+func (m *ReconcilePodENI) VerifGCCRPodENIs(ctx context.Context) { m.gcCRPodENIs(ctx) }
+func (m *ReconcilePodENI) VerifGetENIIndex(ctx context.Context, namespace, name, eniID string) *int {
+	return m.getENIIndex(ctx, namespace, name, eniID)
+}
